@@ -197,6 +197,7 @@ theorem stepSimple_good {s s' : St} {op : Op} {r : String} (h : Inv s)
   | blockS i b => exact step_blockS i b h hs
   | blockedSq i => exact step_blockedSq i h hs
   | emptySq i => exact step_emptySq i h hs
+  | boolSq i => exact step_boolSq i h hs
   | callS i arg => simp [stepSimple] at hs
   | newG i fl => exact step_newG i fl h hs
   | cpG j i => exact step_cpG j i h hs
